@@ -869,3 +869,118 @@ func (c *Ctx) rangeLookupShape(f *ssa.Function, l *Loop) string {
 	}
 	return ""
 }
+
+// c14LookaheadGuards: a test of the remaining length that stands in front of a look-ahead must not demand more bytes
+// than the shortest lexeme the look-ahead can start. A look-ahead at constant offset k examines the byte at pos+k, so
+// it needs k+1 bytes; when its success branch goes on to scan a run with a constant minimum of d characters the lexeme
+// needs k+1+d. A guard `end - pos >= m` with m larger than that sends the shortest lexeme, when it is the very last
+// thing in the text, down the other branch (`0xF` at the end of the input scans as `0` followed by an identifier), and
+// appending a blank changes the token sequence.
+func c14LookaheadGuards(c *Ctx) {
+	const rule = "C14.lookahead-guard-admits-shortest-lexeme"
+	pw := c.PosWriters()
+	per := map[string]int{}
+	n := 0
+	for _, f := range c.P.ModFuncs {
+		if len(f.Blocks) == 0 || f.Signature.Recv() == nil || typeName(f.Signature.Recv().Type()) != "Scanner" {
+			continue
+		}
+		f := f
+		instrs(f, func(b *ssa.BasicBlock, i int, in ssa.Instruction) {
+			call, ok := in.(*ssa.Call)
+			if !ok || peekKind(calleeOf(call)) == "" || len(call.Call.Args) < 2 {
+				return
+			}
+			k, ok := constIntArg(call.Call.Args[1])
+			if !ok {
+				return
+			}
+			// minimum run scanned on success
+			d := int64(0)
+			for _, ref := range *call.Referrers() {
+				bo, ok := ref.(*ssa.BinOp)
+				if !ok {
+					continue
+				}
+				for _, r2 := range *bo.Referrers() {
+					iff, ok := r2.(*ssa.If)
+					if !ok {
+						continue
+					}
+					var succ *ssa.BasicBlock
+					if kk, isK := constIntArg(bo.Y); isK && bo.X == ssa.Value(call) {
+						switch {
+						case bo.Op == token.GEQ && kk == 0, bo.Op == token.GTR && kk == -1, bo.Op == token.NEQ && kk == -1:
+							succ = iff.Block().Succs[0]
+						case bo.Op == token.LSS && kk == 0, bo.Op == token.EQL && kk == -1, bo.Op == token.LEQ && kk == -1:
+							succ = iff.Block().Succs[1]
+						}
+					}
+					if succ == nil || len(succ.Preds) != 1 {
+						continue
+					}
+					for _, sb := range f.Blocks {
+						if sb != succ && !succ.Dominates(sb) {
+							continue
+						}
+						for _, x := range sb.Instrs {
+							cl, ok := x.(*ssa.Call)
+							if !ok {
+								continue
+							}
+							cal := calleeOf(cl)
+							if cal == nil || !pw[cal] || len(cl.Call.Args) < 2 {
+								continue
+							}
+							if m, isK := constIntArg(cl.Call.Args[1]); isK && m > d && isIntType(cl.Call.Args[1].Type()) {
+								d = m
+							}
+						}
+					}
+				}
+			}
+			// dominating remaining-length guards
+			for dd := b; dd != nil; dd = dd.Idom() {
+				id := dd.Idom()
+				if id == nil {
+					break
+				}
+				iff, isIf := id.Instrs[len(id.Instrs)-1].(*ssa.If)
+				if !isIf || len(dd.Preds) != 1 || !(id.Succs[0] == dd || id.Succs[1] == dd) {
+					continue
+				}
+				D, ok := c.geZero(iff.Cond, id.Succs[0] == dd, nil)
+				if !ok || D.coef["end"] != 1 || D.coef["pos"] != -1 || D.coef["n"] != 0 {
+					continue
+				}
+				// the guard's operands must be current: no position write between the guard and the look-ahead
+				stale := false
+				instrs(f, func(_ *ssa.BasicBlock, _ int, w ssa.Instruction) {
+					if stale {
+						return
+					}
+					isW := false
+					if st, ok := w.(*ssa.Store); ok && isScannerField(st.Addr, "pos") {
+						isW = true
+					} else if wc, ok := w.(ssa.CallInstruction); ok {
+						if cal := calleeOf(wc); cal != nil && pw[cal] {
+							isW = true
+						}
+					}
+					if isW && w != in && pathExists(f, w, func(x ssa.Instruction) bool { return x == in }, func(x ssa.Instruction) bool { return x == ssa.Instruction(iff) }, nil) {
+						stale = true
+					}
+				})
+				if stale {
+					continue
+				}
+				need := -D.k // end - pos >= need
+				n++
+				key := c.P.FuncKey(f)
+				per[key]++
+				c.R.Check(rule, fmt.Sprintf("%s: guard#%d", key, per[key]), c.P.InstrPos(iff), need <= k+1+d, fmt.Sprintf("this test lets the look-ahead at offset %d run only when at least %d bytes remain, but the shortest lexeme it starts has %d (offset+1, plus a minimum run of %d): that lexeme at the very end of the text is scanned as something else, and appending a blank changes the tokens", k, need, k+1+d, d))
+			}
+		})
+	}
+	c.R.Floor(rule, 1)
+}
